@@ -158,7 +158,11 @@ def equal_encoding(a, b):
   # Note for simple types, encode_object is trivial, and will result in a non-type-specific
   # comparison (e.g. 1 and 1.0 will compare equal, as would "a" and u"a"). This is to capture
   # equivalence of values in their JSON representations.
-  return _equal_encoded(encode_object(a), encode_object(b))
+  try:
+    return _equal_encoded(encode_object(a), encode_object(b))
+  except RuntimeError:
+    # Nested too deeply to compare (RecursionError): report a change rather than fail the caller.
+    return False
 
 def _equal_encoded(a, b):
   # Like ==, except that NaNs are equal wherever they occur (e.g. inside an encoded list).
